@@ -178,7 +178,12 @@ func cmdEvents(args []string) int {
 	out := fs.String("out", "events.ndjson", "output prefix; events are spread round-robin over -chunks files <out>.<i>")
 	chunks := fs.Int("chunks", 1, "number of output files")
 	logf := fs.String("log", "", "file receiving TLC's own output lines")
+	names := fs.String("names", "", "comma separated option / profile names (opt, idem, class)")
 	fs.Parse(args)
+	var nameList []string
+	if *names != "" {
+		nameList = strings.Split(*names, ",")
+	}
 	var r io.Reader = os.Stdin
 	if *in != "-" {
 		f, err := os.Open(*in)
@@ -228,40 +233,183 @@ func cmdEvents(args []string) int {
 			continue
 		}
 		var ln Line
-		if err := json.Unmarshal([]byte(inner), &ln); err != nil || ln.T != "p" {
+		if err := json.Unmarshal([]byte(inner), &ln); err != nil {
 			continue
 		}
-		var ev interface{}
-		switch *kind {
-		case "law":
-			ev = lawEvent(ln.In, ln.Bs)
-		case "diag":
-			ev = diagEvent(ln.In, ln.Bs)
+		var evs []interface{}
+		switch {
+		case *kind == "law" && ln.T == "p":
+			evs = []interface{}{lawEvent(ln.In, ln.Bs)}
+		case *kind == "diag" && ln.T == "p":
+			evs = []interface{}{diagEvent(ln.In, ln.Bs)}
+		case *kind == "opt" && ln.T == "p":
+			nl := nameList
+			if nl == nil {
+				nl = optNames
+			}
+			evs = optEvents(&ln, nl)
+		case *kind == "idem" && (ln.T == "p" || ln.T == "u"):
+			if ln.T == "p" && len(ln.Bs) > 0 {
+				continue
+			}
+			evs = idemEvents(ln.In, nameList)
+		case *kind == "class" && ln.T == "cls":
+			evs = classEvents(ln.Sp, ln.Std, nameList)
 		default:
-			if f, ok := eventKinds[*kind]; ok {
-				ev = f(&ln)
-			} else {
-				fmt.Fprintln(os.Stderr, "unknown kind", *kind)
+			continue
+		}
+		for _, ev := range evs {
+			b, err := json.Marshal(ev)
+			if err != nil {
+				fmt.Fprintln(os.Stderr, err)
 				return 2
 			}
+			w := ws[n%*chunks]
+			w.Write(b)
+			w.WriteByte('\n')
+			n++
 		}
-		b, err := json.Marshal(ev)
-		if err != nil {
-			fmt.Fprintln(os.Stderr, err)
-			return 2
-		}
-		w := ws[n%*chunks]
-		w.Write(b)
-		w.WriteByte('\n')
-		n++
 	}
 	fmt.Printf("EVENTS kind=%s n=%d\n", *kind, n)
 	return 0
 }
 
-var eventKinds = map[string]func(*Line) interface{}{}
-
 func init() {
 	commands["events"] = cmdEvents
 	_ = strings.HasPrefix
+}
+
+// ---- C16: one option configuration vs the default parser on one input ----
+type OptEvent struct {
+	K   string        `json:"k"`
+	Opt string        `json:"opt"`
+	In  proj.Text     `json:"in"`
+	Bs  []proj.Text   `json:"bs"`
+	D   Res           `json:"d"`   // package-level default parser
+	O   Res           `json:"o"`   // parser / profile built with the option(s)
+	Alt Res           `json:"alt"` // default parser on "http://" + input (default-scheme)
+	DP  [][]proj.Text `json:"dp"`  // decoded parameter list of d
+	OP  [][]proj.Text `json:"op"`  // decoded parameter list of o
+}
+
+var optNames = []string{"newparser", "canon_none", "remove_userinfo", "remove_port", "remove_fragment", "canon:remove_userinfo+remove_port+remove_fragment",
+	"sort_keys", "sort_param", "default_scheme", "accept_invalid", "single_pct", "collapse", "skip_drive", "special_gopher", "lax_host",
+	"set_path", "set_query", "set_squery", "set_frag", "set_sfrag", "accept_invalid+single_pct+collapse+skip_drive", "canon:remove_port+sort_keys+default_scheme"}
+
+func paramsOf(u *url.Url) [][]proj.Text {
+	out := [][]proj.Text{}
+	if u == nil {
+		return out
+	}
+	for _, p := range u.SearchParams().VerifParams() {
+		out = append(out, []proj.Text{normText(proj.FromGo(p[0])), normText(proj.FromGo(p[1]))})
+	}
+	return out
+}
+
+func normText(t proj.Text) proj.Text { return norm(t) }
+
+func callU(f func() (*url.Url, error)) (Res, *url.Url) {
+	var uu *url.Url
+	r := call(func() (*url.Url, error) { u, err := f(); uu = u; return u, err })
+	if r.Fail {
+		uu = nil
+	}
+	return r, uu
+}
+
+func parseU(p url.Parser, in string, bs []proj.Text) (Res, *url.Url) {
+	return callU(func() (*url.Url, error) {
+		if len(bs) == 0 {
+			return p.Parse(in)
+		}
+		return p.ParseRef(bs[0].ToGo(), in)
+	})
+}
+
+func optEvents(ln *Line, names []string) []interface{} {
+	s := ln.In.ToGo()
+	bs := ln.Bs
+	if bs == nil {
+		bs = []proj.Text{}
+	}
+	var out []interface{}
+	for _, name := range names {
+		e := OptEvent{K: "opt", Opt: name, In: ln.In, Bs: bs}
+		var du, ou *url.Url
+		e.D, du = callU(func() (*url.Url, error) {
+			if len(bs) == 0 {
+				return url.Parse(s)
+			}
+			return url.ParseRef(bs[0].ToGo(), s)
+		})
+		e.O, ou = parseU(parserFor(name), s, bs)
+		e.Alt = Res{VE: VEList{}}
+		if strings.Contains(name, "default_scheme") {
+			e.Alt, _ = parseU(defaultP, "http://"+s, nil)
+		}
+		e.DP, e.OP = [][]proj.Text{}, [][]proj.Text{}
+		if strings.Contains(name, "sort_") {
+			func() {
+				defer func() { recover() }()
+				e.DP, e.OP = paramsOf(du), paramsOf(ou)
+			}()
+		}
+		out = append(out, e)
+		if (name == "newparser" || name == "canon_none") && len(bs) == 0 {
+			// ParseRef with an empty base string must behave like Parse, as in the default parser
+			e2 := OptEvent{K: "opt", Opt: name, In: ln.In, Bs: bs, Alt: Res{VE: VEList{}}, DP: [][]proj.Text{}, OP: [][]proj.Text{}}
+			e2.D, _ = callU(func() (*url.Url, error) { return url.ParseRef("", s) })
+			e2.O, _ = callU(func() (*url.Url, error) { return parserFor(name).ParseRef("", s) })
+			out = append(out, e2)
+		}
+	}
+	return out
+}
+
+// ---- C17: canonicalize twice ----
+type IdemEvent struct {
+	K    string    `json:"k"`
+	Prof string    `json:"prof"`
+	In   proj.Text `json:"in"`
+	Y    Res       `json:"y"` // p(x)
+	Z    Res       `json:"z"` // p(y.href)
+}
+
+func idemEvents(in proj.Text, profs []string) []interface{} {
+	var out []interface{}
+	s := in.ToGo()
+	for _, pn := range profs {
+		p := parserFor(pn)
+		e := IdemEvent{K: "idem", Prof: pn, In: in, Z: Res{VE: VEList{}}}
+		e.Y, _ = parseU(p, s, nil)
+		if !e.Y.Fail {
+			e.Z, _ = parseU(p, e.Y.G.Href.ToGo(), nil)
+		}
+		out = append(out, e)
+	}
+	return out
+}
+
+// ---- C18: all spellings of one URL through one profile ----
+type ClassEvent struct {
+	K    string      `json:"k"`
+	Prof string      `json:"prof"`
+	Std  bool        `json:"std"` // the class uses only differences the standard itself normalises
+	Sp   []proj.Text `json:"sp"`
+	Outs []Res       `json:"outs"`
+}
+
+func classEvents(sp []proj.Text, std bool, profs []string) []interface{} {
+	var out []interface{}
+	for _, pn := range profs {
+		p := parserFor(pn)
+		e := ClassEvent{K: "class", Prof: pn, Std: std, Sp: sp}
+		for _, s := range sp {
+			r, _ := parseU(p, s.ToGo(), nil)
+			e.Outs = append(e.Outs, r)
+		}
+		out = append(out, e)
+	}
+	return out
 }
